@@ -133,7 +133,6 @@ class Portfolio(object):
                 'current portfolio datetime (%s). Cannot '
                 'subscribe funds.' % (dt, self.current_dt)
             )
-        self.current_dt = dt
 
         if amount < 0.0:
             raise ValueError(
@@ -141,6 +140,7 @@ class Portfolio(object):
                 '%s to the portfolio.' % amount
             )
 
+        self.current_dt = dt
         self.cash += amount
 
         self.history.append(
@@ -169,7 +169,6 @@ class Portfolio(object):
                 'current portfolio datetime (%s). Cannot '
                 'withdraw funds.' % (dt, self.current_dt)
             )
-        self.current_dt = dt
 
         if amount < 0:
             raise ValueError(
@@ -186,6 +185,7 @@ class Portfolio(object):
                 )
             )
 
+        self.current_dt = dt
         self.cash -= amount
 
         self.history.append(
@@ -211,7 +211,6 @@ class Portfolio(object):
                 'current portfolio datetime (%s). Cannot '
                 'transact assets.' % (txn.dt, self.current_dt)
             )
-        self.current_dt = txn.dt
 
         txn_share_cost = txn.price * txn.quantity
         txn_total_cost = txn_share_cost + txn.commission
@@ -229,6 +228,7 @@ class Portfolio(object):
 
         self.pos_handler.transact_position(txn)
 
+        self.current_dt = txn.dt
         self.cash -= txn_total_cost
 
         # Form Portfolio history details
